@@ -277,6 +277,81 @@ def Ds.after {α G : Type} (R : RNG G) : Nat → Ds α G → Ds α G
   | 0, ds => ds
   | m + 1, ds => Ds.after R m (ds.iter R).2
 
+/-! ### several live epoch iterators over ONE dataset object
+
+`iter(ds)` returns a generator; its body (draw the epoch's permutation, shuffle, then yield the
+batches one by one) starts at the first `next`.  A training loop, an evaluation hook and a
+fast-forward may all use the same dataset object while an epoch is half consumed. -/
+
+/-- a started epoch iterator: which draw produced it, what it has yielded, what is left -/
+structure EpochIter (α : Type) where
+  epoch : Nat
+  yielded : List (List (List α))
+  rest : List (List (List α))
+
+/-- the dataset, the number of permutations drawn from its generator so far, and every iterator
+    obtained from it (`none`: `iter(ds)` was called, the body has not started) -/
+structure Sess (α G : Type) where
+  ds : Ds α G
+  draws : Nat
+  iters : List (Option (EpochIter α))
+
+inductive SessOp where
+  /-- `it = iter(ds)` -/
+  | mk
+  /-- `next(it_j)` -/
+  | next (j : Nat)
+  /-- `ds.fastforward_epochs(n)` -/
+  | ff (n : Nat)
+  deriving Repr
+
+inductive SessOut (α : Type) where
+  | unit
+  | batch (b : List (List α))
+  /-- `StopIteration` -/
+  | stop
+  /-- no such iterator -/
+  | noIter
+
+def Sess.init {α G : Type} (ds : Ds α G) : Sess α G := ⟨ds, 0, []⟩
+
+/-- the generator body starts: `shuffled = self._next_epoch()`, then the first `yield` -/
+def Sess.startIter {α G : Type} (R : RNG G) (s : Sess α G) (j : Nat) : Sess α G × SessOut α :=
+  match (s.ds.iter R).1 with
+  | [] => ({ ds := (s.ds.iter R).2, draws := s.draws + 1,
+             iters := s.iters.set j (some ⟨s.draws, [], []⟩) }, .stop)
+  | b :: r => ({ ds := (s.ds.iter R).2, draws := s.draws + 1,
+                 iters := s.iters.set j (some ⟨s.draws, [b], r⟩) }, .batch b)
+
+/-- the next `yield` of a started generator (or `StopIteration`) -/
+def Sess.advance {α G : Type} (s : Sess α G) (j : Nat) (it : EpochIter α) : Sess α G × SessOut α :=
+  match it.rest with
+  | [] => (s, .stop)
+  | b :: r => ({ s with iters := s.iters.set j (some ⟨it.epoch, it.yielded ++ [b], r⟩) }, .batch b)
+
+def Sess.step {α G : Type} (R : RNG G) (s : Sess α G) : SessOp → Sess α G × SessOut α
+  | .mk => ({ s with iters := s.iters ++ [none] }, .unit)
+  | .ff n => ({ s with ds := Ds.fastforward R n s.ds, draws := s.draws + n }, .unit)
+  | .next j =>
+    match s.iters[j]? with
+    | none => (s, .noIter)
+    | some none => s.startIter R j
+    | some (some it) => s.advance j it
+
+/-- run a list of operations; the trace pairs every operation with what it returned -/
+def Sess.run {α G : Type} (R : RNG G) : Sess α G → List SessOp → Sess α G × List (SessOp × SessOut α)
+  | s, [] => (s, [])
+  | s, op :: ops =>
+    let (s', o) := s.step R op
+    let (s'', tr) := Sess.run R s' ops
+    (s'', (op, o) :: tr)
+
+/-- the batches `next(it_j)` returned, in order -/
+def batchesOf {α : Type} (j : Nat) : List (SessOp × SessOut α) → List (List (List α))
+  | [] => []
+  | (.next k, .batch b) :: tr => if k = j then b :: batchesOf j tr else batchesOf j tr
+  | _ :: tr => batchesOf j tr
+
 /-- `__getstate__` -/
 def Ds.getstate {α G : Type} (ds : Ds α G) : DsCfg α := ds.cfg
 
